@@ -122,7 +122,7 @@ static inline void run_seq(const std::vector<std::string> &w, out &o)
             if (S.att)
             {
                 if (maxsize > 0 && maxsize + 1 > (size_t)S.cap) o.fail(std::string(who) + " receiver stored more than capacity-1 bytes");
-                if (memcmp(B.p + S.cap, S.guard.data(), S.guard.size())) o.fail(std::string(who) + " receiver modified memory behind the buffer it was given");
+                if (!S.guard.empty() && memcmp(B.p + S.cap, S.guard.data(), S.guard.size())) o.fail(std::string(who) + " receiver modified memory behind the buffer it was given");
             }
             else if (maxsize > 0) o.fail(std::string(who) + " receiver without a buffer stored bytes");
             if (S.sound_ok)
